@@ -1978,7 +1978,7 @@ impl<'a> Searcher<'a> {
                     match op {
                         Op::Eq => match is_glob(&val) {
                             true => {
-                                let regex = self.regex_cache.get(&val);
+                                let regex = self.regex_cache.get(&format!("glob:{}", val));
                                 match regex {
                                     Some(regex) => {
                                         return regex.is_match(&field_value.to_string());
@@ -1988,7 +1988,7 @@ impl<'a> Searcher<'a> {
                                         let regex = Regex::new(&pattern);
                                         match regex {
                                             Ok(ref regex) => {
-                                                self.regex_cache.insert(val, regex.clone());
+                                                self.regex_cache.insert(format!("glob:{}", val), regex.clone());
                                                 return regex.is_match(&field_value.to_string());
                                             }
                                             _ => {
@@ -2002,7 +2002,7 @@ impl<'a> Searcher<'a> {
                         },
                         Op::Ne => match is_glob(&val) {
                             true => {
-                                let regex = self.regex_cache.get(&val);
+                                let regex = self.regex_cache.get(&format!("glob:{}", val));
                                 match regex {
                                     Some(regex) => {
                                         return !regex.is_match(&field_value.to_string());
@@ -2012,7 +2012,7 @@ impl<'a> Searcher<'a> {
                                         let regex = Regex::new(&pattern);
                                         match regex {
                                             Ok(ref regex) => {
-                                                self.regex_cache.insert(val, regex.clone());
+                                                self.regex_cache.insert(format!("glob:{}", val), regex.clone());
                                                 return !regex.is_match(&field_value.to_string());
                                             }
                                             _ => {
@@ -2025,7 +2025,7 @@ impl<'a> Searcher<'a> {
                             false => val.ne(&field_value.to_string()),
                         },
                         Op::Rx => {
-                            let regex = self.regex_cache.get(&val);
+                            let regex = self.regex_cache.get(&format!("rx:{}", val));
                             match regex {
                                 Some(regex) => {
                                     return regex.is_match(&field_value.to_string());
@@ -2034,7 +2034,7 @@ impl<'a> Searcher<'a> {
                                     let regex = Regex::new(&val);
                                     match regex {
                                         Ok(ref regex) => {
-                                            self.regex_cache.insert(val, regex.clone());
+                                            self.regex_cache.insert(format!("rx:{}", val), regex.clone());
                                             return regex.is_match(&field_value.to_string());
                                         }
                                         _ => error_exit("Incorrect regex expression", val.as_str()),
@@ -2043,7 +2043,7 @@ impl<'a> Searcher<'a> {
                             }
                         }
                         Op::NotRx => {
-                            let regex = self.regex_cache.get(&val);
+                            let regex = self.regex_cache.get(&format!("rx:{}", val));
                             match regex {
                                 Some(regex) => {
                                     return !regex.is_match(&field_value.to_string());
@@ -2052,7 +2052,7 @@ impl<'a> Searcher<'a> {
                                     let regex = Regex::new(&val);
                                     match regex {
                                         Ok(ref regex) => {
-                                            self.regex_cache.insert(val, regex.clone());
+                                            self.regex_cache.insert(format!("rx:{}", val), regex.clone());
                                             return !regex.is_match(&field_value.to_string());
                                         }
                                         _ => error_exit("Incorrect regex expression", val.as_str()),
@@ -2061,7 +2061,7 @@ impl<'a> Searcher<'a> {
                             }
                         }
                         Op::Like => {
-                            let regex = self.regex_cache.get(&val);
+                            let regex = self.regex_cache.get(&format!("like:{}", val));
                             match regex {
                                 Some(regex) => {
                                     return regex.is_match(&field_value.to_string());
@@ -2071,7 +2071,7 @@ impl<'a> Searcher<'a> {
                                     let regex = Regex::new(&pattern);
                                     match regex {
                                         Ok(ref regex) => {
-                                            self.regex_cache.insert(val, regex.clone());
+                                            self.regex_cache.insert(format!("like:{}", val), regex.clone());
                                             return regex.is_match(&field_value.to_string());
                                         }
                                         _ => error_exit("Incorrect LIKE expression", val.as_str()),
@@ -2080,7 +2080,7 @@ impl<'a> Searcher<'a> {
                             }
                         }
                         Op::NotLike => {
-                            let regex = self.regex_cache.get(&val);
+                            let regex = self.regex_cache.get(&format!("like:{}", val));
                             match regex {
                                 Some(regex) => {
                                     return !regex.is_match(&field_value.to_string());
@@ -2090,7 +2090,7 @@ impl<'a> Searcher<'a> {
                                     let regex = Regex::new(&pattern);
                                     match regex {
                                         Ok(ref regex) => {
-                                            self.regex_cache.insert(val, regex.clone());
+                                            self.regex_cache.insert(format!("like:{}", val), regex.clone());
                                             return !regex.is_match(&field_value.to_string());
                                         }
                                         _ => error_exit("Incorrect LIKE expression", val.as_str()),
